@@ -355,6 +355,30 @@ func tableStepNonNegative(p *Prog) (bool, string) {
 					}
 					a, b := AccessPath(x.X), AccessPath(self)
 					return a.Root == b.Root && a.String() == b.String() && len(a.Sel) > 0
+				case *ssa.MakeSlice:
+					// a pre-sized table: empty, or as long as the table it replaces and filled from it by copy()
+					if k, isC := constInt(strip(x.Len, true)); isC && k == 0 {
+						return true
+					}
+					lc, ok := strip(x.Len, true).(*ssa.Call)
+					if !ok {
+						return false
+					}
+					if bi, ok := lc.Call.Value.(*ssa.Builtin); !ok || bi.Name() != "len" || len(lc.Call.Args) != 1 {
+						return false
+					}
+					src := strip(lc.Call.Args[0], false)
+					copied := false
+					if refs := x.Referrers(); refs != nil {
+						for _, r := range *refs {
+							if cc, ok := r.(*ssa.Call); ok {
+								if bi, ok := cc.Call.Value.(*ssa.Builtin); ok && bi.Name() == "copy" && len(cc.Call.Args) == 2 && cc.Call.Args[0] == ssa.Value(x) && strip(cc.Call.Args[1], false) == src {
+									copied = true
+								}
+							}
+						}
+					}
+					return copied && check(src, d+1)
 				case *ssa.Call:
 					if bi, ok := x.Call.Value.(*ssa.Builtin); !ok || bi.Name() != "append" || len(x.Call.Args) != 2 {
 						return false
